@@ -38,6 +38,7 @@
 **             byte values written and read one byte at a time on file / tmpfile / fmemopen / pipe)
 **             depth=N  first=<ops> | notfirst=<ops> (partition of the history space by
 ** the first operation; comma separated alphabet indices)  alpha=full|lite  whitebox=1|0
+**             bigprint=1|0 (0: without the 257-character print_to operation)
 **             probe=1|0 (seof/stell compared with the twin after every transition)
 **             concrete=1|0 (state key refined by the real stream's libc bookkeeping when it
 **             differs from the twin's)
@@ -249,6 +250,8 @@ static volatile int64_t g_ret;   /* integer result of the real call */
 static volatile var g_retp;      /* pointer result of the real call */
 static volatile int pr_eof;
 
+static int nobigprint;              /* bigprint=0: the 257-character print_to is left to the shallower instance and the ladder */
+static int touched[2] = { 1, 1 };   /* an open was attempted on that path since the last reset */
 static int nsteps, bad_exec, whitebox = 1, concrete = 1, probe = 1;
 static int nt_flag;
 static unsigned char firstmask[MAXOPS]; static int have_first;
@@ -330,18 +333,21 @@ static int ledger_post(void) {
 
 /* ---- on-disk comparison (only when nothing is buffered for that path) ------------- */
 
+/* whole file into a malloc'd buffer (raw descriptors: no stdio of the process under test involved) */
 static unsigned char* slurp(const char* path, size_t* n, int* exists) {
-  FILE* f = __real_fopen(path, "rb");
-  *n = 0; *exists = f != NULL;
-  if (!f) return NULL;
-  size_t cap = 1 << 16; unsigned char* b = malloc(cap);
+  int fd = open(path, O_RDONLY);
+  *n = 0; *exists = fd >= 0;
+  if (fd < 0) return NULL;
+  struct stat st;
+  size_t cap = (fstat(fd, &st) == 0 ? (size_t)st.st_size : 0) + 64;
+  unsigned char* b = malloc(cap);
   for (;;) {
     if (*n == cap) { cap *= 2; b = realloc(b, cap); }
-    size_t r = __real_fread(b + *n, 1, cap - *n, f);
-    if (r == 0) break;
-    *n += r;
+    ssize_t r = read(fd, b + *n, cap - *n);
+    if (r <= 0) break;
+    *n += (size_t)r;
   }
-  __real_fclose(f);
+  close(fd);
   return b;
 }
 
@@ -420,7 +426,7 @@ static int prim_enabled(const struct prim* p) {
 /* the raw Cello call; may throw */
 static void prim_real(const struct prim* p, var f) {
   switch (p->kind) {
-  case K_SOPEN:  g_retp = sopen(f, $S(rpath[p->a]), $S((char*)modestr[p->b])); break;
+  case K_SOPEN:  touched[p->a] = 1; g_retp = sopen(f, $S(rpath[p->a]), $S((char*)modestr[p->b])); break;
   case K_SCLOSE: sclose(f); break;
   case K_STELL:  g_ret = stell(f); break;
   case K_SEOF:   g_ret = seof(f) ? 1 : 0; break;
@@ -429,7 +435,7 @@ static void prim_real(const struct prim* p, var f) {
   case K_SREAD:  g_ret = (int64_t)sread(f, rbuf, rdlen[p->a]); break;
   case K_SSEEK:  sseek(f, p->b == OFF_CURPOS ? M.pos : offsets[p->b], origins[p->a]); break;
   case K_PRINT:  g_ret = print_to(f, 0, RECFMT, $S(paystr[p->a]), $I(42)); break;
-  case K_CONSTRUCT: g_retp = construct(f, $S(rpath[p->a]), $S((char*)modestr[p->b])); break;
+  case K_CONSTRUCT: touched[p->a] = 1; g_retp = construct(f, $S(rpath[p->a]), $S((char*)modestr[p->b])); break;
   case K_SCAN:   g_ret = scan_from(f, 0, RECFMT, SK, IV); break;
   case K_EMPTY:  break;
   }
@@ -710,6 +716,7 @@ static int apply_delnew(struct op* o) {
   case 3: memset(sfmem, 0, sizeof(struct Header) + sizeof(struct File)); F = header_init(sfmem, File, AllocStack); F_kind = F_STACK; break;   /* what $(File, NULL) builds */
   default: {
     struct prim pr = { K_SOPEN, o->p.a, o->p.b };
+    touched[pr.a] = 1;
     var e = LIB(F = new_raw(File, $S(rpath[pr.a]), $S((char*)modestr[pr.b])));
     F_kind = F_RAW;
     int failed = e != NULL;
@@ -769,6 +776,7 @@ static void compute_divergence(void) {
 static int apply(int opi) {
   struct op* o = &ops[opi];
   if (have_first && nsteps == 0 && !vf.replay && !firstmask[opi]) return VF_SKIP;
+  if (nobigprint && !vf.replay && o->p.kind == K_PRINT && o->type != T_DELNEW && paylen[o->p.a] > 1) return VF_SKIP;
   nt_flag = 0;
   int r;
   switch (o->type) {
@@ -829,7 +837,7 @@ static int check(void) {
 
 static void reset(void) {
   for (int p = 0; p < 2; p++) {
-    unlink(rpath[p]); unlink(tpath[p]);
+    if (touched[p]) { unlink(rpath[p]); unlink(tpath[p]); touched[p] = 0; }
     M.f[p].exists = 0; M.f[p].len = 0; M.f[p].dirty = 0;
   }
   model_close();
@@ -1327,6 +1335,7 @@ int main(int argc, char** argv) {
   if (fs) { have_first = 1; parse_first(fs, 1); }
   else if (nfs) { have_first = 1; memset(firstmask, 1, sizeof firstmask); parse_first(nfs, 0); }
 
+  nobigprint = !vf_param_i("bigprint", 1);
   concrete = (int)vf_param_i("concrete", 1);   /* 0: state key = model only */
   probe = (int)vf_param_i("probe", 1);         /* 0: no seof/stell comparison after every transition */
   whitebox = (int)vf_param_i("whitebox", 1);   /* 0: no look at the public struct File field, API oracles only */
@@ -1350,7 +1359,7 @@ int main(int argc, char** argv) {
   }
 
   static char dname[96];
-  snprintf(dname, sizeof dname, "file[%s,%d ops%s%s]", vf_param("alpha", "full"), nops, fs ? ",first=" : nfs ? ",notfirst=" : "", fs ? fs : nfs ? nfs : "");
+  snprintf(dname, sizeof dname, "file[%s,%d ops%s%s]", vf_param("alpha", "full"), nops - nobigprint, fs ? ",first=" : nfs ? ",notfirst=" : "", fs ? fs : nfs ? nfs : "");
   struct vf_domain d = { dname, nops, reset, cleanup, apply, check, canon, opname, nontrivial,
                          (size_t)vf_param_i("depth", 4), (size_t)vf_param_i("max_states", 0) };
 
